@@ -3,6 +3,7 @@
    event-emitting loop of Gram/Events.v; rho is an ARBITRARY oracle telling whether the context is done at each poll. *)
 From Coq Require Import List ZArith Bool.
 From TM Require Import Gram.PTables Gram.Run Gram.Validator Gram.Events Gram.Cancel Gram.Cancel_proofs.
+From TM Require Import Gram.CancelLA Gram.CancelLA_proofs.
 Import ListNotations.
 Local Open Scope Z_scope.
 
@@ -47,11 +48,61 @@ Theorem C29_shifts_are_counted :
   (forall o terms rl rs s a more q, m_act (opt_machine o terms rl rs) s a more = Shift q -> attempts_opt o s a = true).
 Proof. split; [exact lalr1_attempts|exact opt_attempts]. Qed.
 
-(* NOT modelled (partial): cancellation inside lookahead sub-parses (grammars with (?= ...) lookaheads) and the
-   hand-written loop of parsers/js; goroutine timing of the cancelling side (rho abstracts it). *)
+(* ---------------- parsers with runtime lookaheads (?= ...): Gram/CancelLA.v ----------------
+   lookahead sub-parses (also nested ones, with memoization, under recursiveLookaheads) run the same loop on the rest
+   of the input, share the session's shift counter with the main loop and poll the context with the same test; a poll
+   inside a lookahead that finds the context done aborts the WHOLE parse with the context error.
+   [never] is the oracle of a context that is never cancelled: lrun_loop .. never .. is "the uncancelled parse". *)
+
+(* (a) For EVERY machine, lookahead tables, event table, input, fuel and EVERY oracle rho: the parse returns the
+   context error at a configuration (stack, rest of the input, events, session) that the uncancelled parse passes
+   through, or it returns exactly the outcome, configuration and session of the uncancelled parse. *)
+Theorem C29_lookaheads_cancel_or_same :
+  forall m lt attempts eoi_off rho lfuel evt fixws end_state f c o c' s',
+  lrun_loop m lt attempts eoi_off rho f lfuel evt fixws end_state c = (o, c', s') ->
+  (o = CtxErr /\ exists k, (k <= f)%nat /\
+     lrun_loop m lt attempts eoi_off never f lfuel evt fixws end_state c =
+     lrun_loop m lt attempts eoi_off never (f - k) lfuel evt fixws end_state c') \/
+  lrun_loop m lt attempts eoi_off never f lfuel evt fixws end_state c = (o, c', s').
+Proof. exact la_cancel_or_same. Qed.
+
+(* the events reported before the context error are a prefix of the events of the uncancelled parse *)
+Theorem C29_lookaheads_events_before_cancellation_are_a_prefix :
+  forall m lt attempts eoi_off rho lfuel evt fixws end_state f c c' s' o0 c0 s0,
+  lrun_loop m lt attempts eoi_off rho f lfuel evt fixws end_state c = (CtxErr, c', s') ->
+  lrun_loop m lt attempts eoi_off never f lfuel evt fixws end_state c = (o0, c0, s0) ->
+  exists evs, xc_events (lc_x c0) = xc_events (lc_x c') ++ evs.
+Proof. exact la_cancel_events_prefix. Qed.
+
+(* (b) once the context is done from counter value s on (every poll at a counter value >= s sees it), the shared
+   counter of the main loop and all lookahead sub-parses stops at the latest AT the next polled value, which is below
+   s + 512, and then with the context error; any other outcome is reached before that value.  Every unit of the
+   counter is one recorded shift attempt (ls_ticks: main loop or lookahead at some depth), so at most 511 further shift
+   attempts - main loop and lookaheads together - are made before the error is returned or the parse has ended. *)
+Theorem C29_lookaheads_cancel_bounded :
+  forall m lt attempts eoi_off rho lfuel evt fixws end_state f s c o c' s',
+  1 <= s -> (forall n, s <= n -> rho n = true) -> ls_counter (lc_s c) < next_poll s ->
+  lrun_loop m lt attempts eoi_off rho f lfuel evt fixws end_state c = (o, c', s') ->
+  ls_counter s' <= next_poll s < s + 512 /\
+  (o <> CtxErr -> ls_counter s' < next_poll s) /\
+  ls_counter (lc_s c) <= ls_counter s' /\
+  Z.of_nat (length (ls_ticks s')) - Z.of_nat (length (ls_ticks (lc_s c))) = ls_counter s' - ls_counter (lc_s c).
+Proof. exact la_cancel_bounded. Qed.
+
+(* the hypotheses on the oracle are satisfiable (a context cancelled before the parse starts) *)
+Example C29_bound_hypotheses_satisfiable : exists (rho : Z -> bool) s, 1 <= s /\ forall n, s <= n -> rho n = true.
+Proof. exists (fun _ => true), 1. split; [discriminate|reflexivity]. Qed.
+
+(* NOT modelled: the lexer/token stream below the parser (the model works on the token list; the lookahead's lexer
+   copy is the rest of that list), error recovery (the generated test grammars and StopOnFirstError runs do not
+   recover), the cancellableFetch option; goroutine timing of the cancelling side (rho abstracts it).  The js parser
+   (9310 states, hand-written loop of the same shape) is checked against the statements above by its poll log only. *)
 
 Print Assumptions C29_cancel_or_same.
 Print Assumptions C29_events_before_cancellation_are_a_prefix.
 Print Assumptions C29_cancel_bounded.
 Print Assumptions C29_next_poll_is_near.
 Print Assumptions C29_shifts_are_counted.
+Print Assumptions C29_lookaheads_cancel_or_same.
+Print Assumptions C29_lookaheads_events_before_cancellation_are_a_prefix.
+Print Assumptions C29_lookaheads_cancel_bounded.
